@@ -232,6 +232,13 @@ func (m *Model) Run(hist []string) *proto.Result {
 			}
 			continue
 		}
+		if aerr != nil && mode == "fail" && seam.Injected > 0 {
+			// storage works (nothing was injected into THIS event), the event is enabled by what
+			// the wallet reports, and it fails: the earlier fault left a trace
+			res.Viol = append(res.Viol, fmt.Sprintf("after a storage fault earlier in the history, %s (storage working) fails: %v", ev, aerr))
+			res.Outcome = "later-event-failed"
+			return res
+		}
 		if aerr != nil {
 			res.Err = fmt.Sprintf("event %d %s: %v", i, ev, aerr)
 			return res
@@ -368,8 +375,9 @@ func (m *Model) Run(hist []string) *proto.Result {
 		}
 		if m.O.Tasks {
 			if err := w.CompleteTasks(); err != nil {
-				res.Err = "completing background tasks: " + err.Error()
-				return res
+				// no fault, no crash in this run: background work that does not complete is the
+				// implementation's doing
+				res.Viol = append(res.Viol, "background work does not complete: "+err.Error())
 			}
 			for len(w.N.Queue) > 0 {
 				if err := w.Deliver(); err != nil {
